@@ -17,6 +17,8 @@ type Loop struct {
 	labelStart    string
 	labelBreak    string
 	labelContinue string
+	// How many `try` blocks enclosed the loop when it was entered.
+	tryDepth uint
 }
 
 type Function struct {
@@ -33,6 +35,8 @@ type Compiler struct {
 	modules         map[string]map[string]*Function
 	currFn          string
 	loops           []Loop
+	// How many `try` blocks of the current function enclose the code which is being compiled.
+	tryDepth uint
 	fnNameMangle    map[string]uint64
 	varNameMangle   map[string]uint64
 	labelNameMangle map[string]uint64
